@@ -17,7 +17,7 @@ from .. import algs, fpx
 from ..translate import ir
 from . import c01
 
-THEOREMS = ["generated_wf"]
+THEOREMS = ["generated_wf", "conj_square_c64", "conj_square_c128", "even_square_real", "even_absolute_real", "soft_sign_laws"]
 SEARCHED = ["conjugate symmetry of the 13 libm-based complex algorithms", "oddness of asin/asinh/atan/atanh (complex, real)", "rotation identities asinh/asin, atan/atanh, acosh/acos",
             "imag acos = -imag asin"]
 TRUSTED = [
